@@ -1135,6 +1135,7 @@ fn run_dynamic<D: TestDriver<Error = DrvError>>(
 }
 
 fn run_static(c: &Case, tc: &TestCase, buf: &mut String) {
+    let start_len = buf.len();
     verif_hooks::set_seed_override(Some(c.seed));
     let _ = verif_hooks::take_rng_log();
     let res = catch_unwind(AssertUnwindSafe(|| {
@@ -1186,7 +1187,71 @@ fn run_static(c: &Case, tc: &TestCase, buf: &mut String) {
             out(buf, "END panic");
         }
     }
-    out(buf, &rng_line());
+    let main_rng = rng_line();
+    out(buf, &main_rng);
+    // the same static run through the iterator adapters that skip items (nth, skip, step_by): a skipped item is evaluated
+    // like a visited one - the items that are visited, and the draws of the whole run, are those of the plain run
+    let mine = buf[start_len..].to_string();
+    let main_rows: Vec<&str> = mine.lines().filter(|l| l.starts_with("SROW ") || l.starts_with("ITEM ")).collect();
+    if mine.lines().any(|l| l == "END none") && !main_rows.iter().any(|l| l.starts_with("ITEM ")) && mine.lines().any(|l| l == "STATIC ok") {
+        let sline = |row: &static_test::StaticDataRow<'_>| {
+            let outs = row.expected.iter().map(|r| format!("{}:{}", nm(&r.signal.name), expval_s(r.value))).collect::<Vec<_>>().join(" ");
+            format!("SROW {} | {} | {}", row.line, inputs_s(&row.inputs), outs)
+        };
+        let mode = c.seed % 3;
+        let _ = verif_hooks::take_rng_log();
+        let res = catch_unwind(AssertUnwindSafe(|| {
+            let Ok(mut it) = tc.try_iter_static() else { return Err("constructor failed".to_string()) };
+            let mut got: Vec<(usize, String)> = vec![];
+            let n = main_rows.len();
+            match mode {
+                0 => {
+                    let mut i = 1usize;
+                    while let Some(item) = it.nth(1) {
+                        got.push((i, item.as_ref().map(&sline).unwrap_or_else(|_| "ITEM err".to_string())));
+                        i += 2;
+                        if i > n + 4 {
+                            break;
+                        }
+                    }
+                }
+                1 => {
+                    for (k, item) in it.skip(2).enumerate().take(n + 2) {
+                        got.push((k + 2, item.as_ref().map(&sline).unwrap_or_else(|_| "ITEM err".to_string())));
+                    }
+                }
+                _ => {
+                    for (k, item) in it.step_by(2).enumerate().take(n + 2) {
+                        got.push((2 * k, item.as_ref().map(&sline).unwrap_or_else(|_| "ITEM err".to_string())));
+                    }
+                }
+            }
+            Ok(got)
+        }));
+        let rng2 = rng_line();
+        let verdict = match res {
+            Err(_) => "PANIC".to_string(),
+            Ok(Err(e)) => e,
+            Ok(Ok(got)) => {
+                let want: Vec<usize> = match mode {
+                    0 => (1..main_rows.len()).step_by(2).collect(),
+                    1 => (2..main_rows.len()).collect(),
+                    _ => (0..main_rows.len()).step_by(2).collect(),
+                };
+                if got.iter().map(|g| g.0).collect::<Vec<_>>() != want {
+                    format!("mode {mode}: visited {} items instead of {}", got.len(), want.len())
+                } else if let Some(g) = got.iter().find(|g| main_rows[g.0] != g.1) {
+                    format!("mode {mode}: item {} is [{:.60}] vs [{:.60}]", g.0, g.1, main_rows[g.0])
+                } else if rng2 != main_rng {
+                    format!("mode {mode}: the draws differ: [{:.70}] vs [{:.70}]", rng2, main_rng)
+                } else {
+                    String::new()
+                }
+            }
+        };
+        let line = if verdict.is_empty() { "SADAPT same".to_string() } else { format!("SADAPT DIFFERENT {verdict}") };
+        out(buf, &line);
+    }
     verif_hooks::set_seed_override(None);
 }
 
@@ -1481,6 +1546,81 @@ fn run_dig(c: &Case, buf: &mut String) {
                 .unwrap_or_else(|_| "PANIC".to_string());
                 out(buf, &format!("LOADSRC {i} {carried}"));
                 let loaded = catch_unwind(AssertUnwindSafe(|| file.load_test(i).ok()));
+                // a refused test is refused for the same reason, at the same places, as by from_str + with_signals
+                fn diag_sig(e: &dyn miette::Diagnostic) -> String {
+                    let labels = e
+                        .labels()
+                        .map(|l| l.map(|x| format!("{}+{}:{}", x.offset(), x.len(), x.label().unwrap_or(""))).collect::<Vec<_>>().join(","))
+                        .unwrap_or_default();
+                    format!("{e} @ {labels}")
+                }
+                let at_direct = catch_unwind(AssertUnwindSafe(|| match ParsedTestCase::from_str(&t.source) {
+                    Err(e) => diag_sig(&e),
+                    Ok(p) => match p.with_signals(file.signals.clone()) {
+                        Err(e) => diag_sig(&e),
+                        Ok(_) => "none".to_string(),
+                    },
+                }));
+                let at_loaded = catch_unwind(AssertUnwindSafe(|| match file.load_test(i) {
+                    Err(e) => diag_sig(&e),
+                    Ok(_) => "none".to_string(),
+                }));
+                match (&at_direct, &at_loaded) {
+                    (Ok(a), Ok(b)) if a == b => out(buf, &format!("LOADAT {i} same")),
+                    (Ok(a), Ok(b)) => out(buf, &format!("LOADAT {i} DIFFERENT [{:.80}] vs direct [{:.80}]", b, a)),
+                    _ => out(buf, &format!("LOADAT {i} PANIC")),
+                }
+                // `test_cases[i].source` is a public field: after an edit of it (same length: a line break in front of the
+                // header turned into a blank or back, the last line break turned into a blank; or the signal list
+                // reversed) load_test still is parse + bind of what is there NOW
+                {
+                    let mut edits: Vec<String> = vec![];
+                    let b = t.source.as_bytes();
+                    let lead = b.iter().take_while(|x| matches!(**x, b' ' | b'\t' | b'\r' | b'\n')).count();
+                    if let Some(p) = b[..lead].iter().position(|x| *x == b'\n') {
+                        let mut e = b.to_vec();
+                        e[p] = b' ';
+                        edits.push(String::from_utf8(e).unwrap());
+                    }
+                    if let Some(p) = b[..lead].iter().position(|x| *x == b' ') {
+                        let mut e = b.to_vec();
+                        e[p] = b'\n';
+                        edits.push(String::from_utf8(e).unwrap());
+                    }
+                    if let Some(p) = b.iter().rposition(|x| *x == b'\n') {
+                        let mut e = b.to_vec();
+                        e[p] = b' ';
+                        edits.push(String::from_utf8(e).unwrap());
+                    }
+                    edits.push(format!("\n{}", t.source));
+                    let mut problem = String::new();
+                    for (k, e) in edits.iter().enumerate() {
+                        let mut f2 = file.clone();
+                        f2.test_cases[i].source = e.clone();
+                        if k % 2 == 1 {
+                            f2.signals.reverse();
+                        }
+                        let sigs2 = f2.signals.clone();
+                        let want = catch_unwind(AssertUnwindSafe(|| match ParsedTestCase::from_str(e) {
+                            Err(er) => Err(diag_sig(&er)),
+                            Ok(p) => p.with_signals(sigs2).map_err(|er| diag_sig(&er)),
+                        }));
+                        let got = catch_unwind(AssertUnwindSafe(|| f2.load_test(i).map_err(|er| diag_sig(&er))));
+                        let same = match (&want, &got) {
+                            (Ok(Ok(a)), Ok(Ok(b))) => a == b,
+                            (Ok(Err(a)), Ok(Err(b))) => a == b,
+                            _ => false,
+                        };
+                        if !same && problem.is_empty() {
+                            problem = format!("edit {k}: load_test gives {:.90?} but parse + bind {:.90?}", got.as_ref().map(|r| r.as_ref().map(|_| "a test")), want.as_ref().map(|r| r.as_ref().map(|_| "a test")));
+                        }
+                    }
+                    if problem.is_empty() {
+                        out(buf, &format!("LOADEDIT {i} same"));
+                    } else {
+                        out(buf, &format!("LOADEDIT {i} DIFFERENT {problem}"));
+                    }
+                }
                 // selection by name is selection of the first test with that label: the same test or the same error
                 // (compared as Debug text plus the rendered report, source snippet and labels included)
                 let err_text = |e: digital_test_runner::errors::LoadTestError| {
@@ -1722,15 +1862,43 @@ fn run_case(c: &Case) -> String {
                                         }
                                     }
                                 }
+                                let edit_sigs = |sigs: &mut Vec<Signal>| {
+                                    if mode == 1 {
+                                        if let Some(sg) = sigs.iter_mut().find(|sg| sg.is_input()) {
+                                            sg.bits = sg.bits % 8 + 1;
+                                            match &mut sg.typ {
+                                                SignalType::Input { default } | SignalType::Bidirectional { default } => {
+                                                    *default = match *default {
+                                                        InputValue::Value(v) => InputValue::Value(v ^ 1),
+                                                        InputValue::Z => InputValue::Value(1),
+                                                    }
+                                                }
+                                                _ => {}
+                                            }
+                                        }
+                                    }
+                                };
+                                // the fresh test is BOUND to the edited list (odd seeds: bound first, then edited like the used one)
+                                let mut sigs2 = c.sigs.clone();
+                                if c.seed % 2 == 0 {
+                                    for (i, b) in &c.rebits {
+                                        if *i < sigs2.len() {
+                                            sigs2[*i].bits = *b;
+                                        }
+                                    }
+                                    edit_sigs(&mut sigs2);
+                                }
                                 let fresh = catch_unwind(AssertUnwindSafe(|| {
-                                    ParsedTestCase::from_str(&c.src).ok().and_then(|p| p.with_signals(c.sigs.clone()).ok())
+                                    ParsedTestCase::from_str(&c.src).ok().and_then(|p| p.with_signals(sigs2).ok())
                                 }))
                                 .unwrap_or(None);
                                 if let Some(mut fresh) = fresh {
                                     let mut used = tc.clone();
-                                    for (i, b) in &c.rebits {
-                                        if *i < fresh.signals.len() {
-                                            fresh.signals[*i].bits = *b;
+                                    if c.seed % 2 != 0 {
+                                        for (i, b) in &c.rebits {
+                                            if *i < fresh.signals.len() {
+                                                fresh.signals[*i].bits = *b;
+                                            }
                                         }
                                     }
                                     let edit = |t: &mut TestCase| {
@@ -1749,7 +1917,9 @@ fn run_case(c: &Case) -> String {
                                             }
                                         }
                                     };
-                                    edit(&mut fresh);
+                                    if c.seed % 2 != 0 {
+                                        edit(&mut fresh);
+                                    }
                                     edit(&mut used);
                                     // the used test itself is edited IN PLACE (same object, same address) and is the first to run again
                                     edit(&mut tc);
